@@ -131,6 +131,14 @@ theorem spec_rule_consistent : ∀ s : Slot, specTail s = specTailKey s.key := b
   have h : Slot.all.all (fun s => specTail s == specTailKey s.key) = true := by decide +kernel
   simpa using Slot.forall_of_all h s
 
+/-- the slots whose visit opens a table of the construct's own (`opensTable`, used by the marker's name lookup) are the
+ones for which the table says so (`scope` column: the block's / the comprehension's table is handed down) -/
+theorem opens_table_consistent : ∀ s : Slot, opensTable s = ["seq_value.stab", "listcomp_value.stab"].contains (refScope s) := by
+  intro s
+  have h : Slot.all.all (fun s => opensTable s == ["seq_value.stab", "listcomp_value.stab"].contains (refScope s)) = true := by
+    decide +kernel
+  simpa using Slot.forall_of_all h s
+
 theorem refRows_at_slot : ∀ s : Slot,
     (match refRows[slotIdx s]? with | some r => r.pass | none => Pass.add) = refTab s := by
   intro s
@@ -168,7 +176,7 @@ the last expression of a block, a `match` arm or a branch of `if let`.  For all 
 theorem marker_sound (tab : Slot → Pass) (h : TabSound tab) (fn : Func) (p : Path)
     (hm : markedInBody tab fn p = true) :
     TailPath fn.body p ∧ ∃ args, sub fn.body p = some (.call (.var fn.name) args) := by
-  obtain ⟨c, hsub, hflag, hself⟩ := (markedAt_iff tab fn.name p _ _ _).mp hm
+  obtain ⟨c, hsub, hflag, hself⟩ := (markedAt_iff tab fn.name p _ _ _ _).mp hm
   have hsome : (sub fn.body p).isSome := by rw [hsub]; rfl
   have hna : ∀ st ∈ p, tab st.1 ≠ .add := by
     intro st hst ha
@@ -188,10 +196,10 @@ theorem marker_skips_catch (tab : Slot → Pass) (hadd : ∀ s, tab s = .add →
     have hf : flag (tab (if c.exc.isSome then Slot.catchOne else Slot.catchAll)) false = false := by
       split <;> simp [h1, h2, flag]
     rw [hf]
-    cases hm : markedAt tab fn.name (paramBinders fn.params) false c.body p with
+    cases hm : markedAt tab fn.name (paramBinders fn.params) [] false c.body p with
     | false => rfl
     | true =>
-      obtain ⟨x, hsub, hflag, _⟩ := (markedAt_iff tab fn.name p _ _ _).mp hm
+      obtain ⟨x, hsub, hflag, _⟩ := (markedAt_iff tab fn.name p _ _ _ _).mp hm
       have hsome : (sub c.body p).isSome := by rw [hsub]; rfl
       have hna : ∀ st ∈ p, tab st.1 ≠ .add := fun st hst ha => steps_not_funcBody hsome st hst (hadd _ ha)
       rw [flagAlong_false tab p hna] at hflag
@@ -203,13 +211,14 @@ call in tail position (the identifier is the function's name and nothing in scop
 theorem marker_complete (tab : Slot → Pass) (h : ∀ s, specTail s = true → tab s = .op) (hb : tab .funcBody = .add)
     (fn : Func) (p : Path) (hs : SelfTailCall fn p) : markedInBody tab fn p = true := by
   obtain ⟨⟨_, htail⟩, hne, hpar, hscope, args, hsub⟩ := hs
-  apply (markedAt_iff tab fn.name p _ _ _).mpr
+  apply (markedAt_iff tab fn.name p _ _ _ _).mpr
   refine ⟨_, hsub, ?_, ?_⟩
   · rw [hb]; exact flagAlong_of_all_op tab p (fun st hst => h _ (htail st hst))
-  · have hnb : fn.name ∉ boundAlong (paramBinders fn.params) fn.body p := by
+  · have hnb : fn.name ∉ seenAlong (paramBinders fn.params) [] fn.body p := by
       intro hin
-      rcases boundAlong_tail p _ _ htail _ hin with h1 | h1
+      rcases seenAlong_tail p _ _ _ htail _ hin with h1 | h1 | h1
       · exact hpar h1
+      · cases h1
       · exact hscope h1
     simp [isSelfCall, hne, hnb]
 
@@ -227,7 +236,7 @@ theorem marker_sound_c_partial (fn : Func) (p : Path) (hm : markedInBody cTab fn
     TailOrHeadPath fn.body p ∧ (∃ args, sub fn.body p = some (.call (.var fn.name) args)) ∧
       ((∀ st ∈ p, st.1 ≠ Slot.callFn) → TailPath fn.body p) := by
   rw [cTab_eq_refTab] at hm
-  obtain ⟨c, hsub, hflag, hself⟩ := (markedAt_iff refTab fn.name p _ _ _).mp hm
+  obtain ⟨c, hsub, hflag, hself⟩ := (markedAt_iff refTab fn.name p _ _ _ _).mp hm
   have hsome : (sub fn.body p).isSome := by rw [hsub]; rfl
   have hna : ∀ st ∈ p, refTab st.1 ≠ .add := by
     intro st hst ha
